@@ -29,6 +29,8 @@ type Peers struct {
 	melt chan struct{}
 
 	collectLock sync.Mutex
+
+	endOnce sync.Once
 }
 
 // NewPeers constructs a fresh container of remote peers.
@@ -130,6 +132,12 @@ func (p *Peers) purgeClosedPeers() {
 // End closes all active connections to Peers contained here, and stops the
 // collection of future Peers.
 func (p *Peers) End() {
+	// End may be called more than once (and concurrently); only the first
+	// call does the work, the others wait for it to finish.
+	p.endOnce.Do(p.end)
+}
+
+func (p *Peers) end() {
 	close(p.melt)
 	p.collectLock.Lock()
 	defer p.collectLock.Unlock()
